@@ -271,6 +271,18 @@ def _oracle(ctx, kind, case, out):
         if out.code >= 100 or out.code < 0 or (out.code == 12 and op != 12):
             # Python-level exception (ValueError is only documented for split with a bad depth)
             fail("unexpected exception " + out.text)
+        elif op in (14, 15):
+            # successor/predecessor must return for every name of the zone (the docstrings promise a
+            # name; only a relative/foreign origin or an over-long relative name may raise)
+            n, o = case[1], case[2]
+            if not is_abs(o):
+                legit = out.code == 8
+            elif is_abs(n):
+                legit = out.code == 11 and common_suffix(n, o) != len(o)
+            else:
+                legit = out.code == 2 and not nl.fits(n + o)
+            if not legit:
+                fail("successor/predecessor raised " + out.text + " for a name of the zone")
         return F
     if op == 2:
         a, b = case[1], case[2]
